@@ -61,7 +61,7 @@ def c04(r):
     r.assumptions += ["real-valued Julian Days are sampled at millisecond offsets {0,1,250,499,501,750,999} of two seconds per day, not enumerated",
                       "TLC 1.8, CommunityModules Json reader, Go toolchain; the projection code in lz (exercised by the negative controls)"]
     r.build()
-    r.mc("MC_Civil", "MC_Civil_d3" if thorough else "MC_Civil")
+    r.mc("MC_Civil", "MC_Civil_d3" if thorough else "MC_Civil", nocov=True)
     edges = r.export_edges("MC_Civil", "MBT_Civil" if not thorough else "MBT_Civil")
     tsv = os.path.join(r.dir, "edges.tsv")
     write_lines(tsv, edges_to_tsv(edges))
@@ -221,7 +221,7 @@ def c19(r):
               "distinctness within the year. Distinct non-trivial case = distinct civil day." %
               ("every year 1..9999" if thorough else "80 seeded + 21 boundary years"))
     r.build()
-    r.mc("MC_Forms", "MC_Forms_t" if thorough else "MC_Forms")
+    r.mc("MC_Forms", "MC_Forms_t" if thorough else "MC_Forms", nocov=True)
     ch = r.drive("c19years", args={"years": 80}, maxlines=40)
     r.validate("Trace_Civil", ch)
     r.sample_from(ch[:1])
@@ -850,7 +850,7 @@ def c09(r):
     r.build(race=True)
     r.mc("MC_Cache", "MC_Cache", timeout=600)
     if thorough:
-        r.mc("MC_Cache", "MC_Cache_4", timeout=1800, heap="24g")
+        r.mc("MC_Cache", "MC_Cache_4", timeout=1800, heap="24g", nocov=True)
     # hazard configurations: the model must exhibit the hazards (otherwise the model lost them)
     for cfg, inv in (("MC_Cache_bad", "NoLockLeak"), ("MC_Cache_lazy", "NoRace")):
         info, out = r.mc("MC_Cache", cfg, expect_ok=False)
